@@ -41,6 +41,7 @@ mod h_loop;
 mod h_bytes;
 mod h_escape;
 mod h_listing;
+mod h_load;
 
 fn main() {
   let args: Vec<String> = std::env::args().collect();
@@ -60,6 +61,8 @@ fn main() {
     "replay-escape" => h_escape::replay(&opts),
     "listing" => h_listing::run(&opts),
     "replay-listing" => h_listing::replay(&opts),
+    "load" => h_load::run(&opts),
+    "replay-load" => h_load::replay(&opts),
     other => {
       eprintln!("unknown suite {}", other);
       2
